@@ -6,25 +6,38 @@
    proofs in Proofs/Device*.v.  `valid_op` = client commands are the nine targeted ones, dev_initial_connect happens once (HInit);
    `cfg_ok` = what the parser guarantees (login script exists: F14; blocks non-empty; formats %s/%%-only) + formatted send strings fit 64 KiB. *)
 
-(* C07_no_hang for ALL configurations is FALSE of the model: C07_no_hang_refuted (the fuel of _process_action's loop, 4096 iterations per
-   device and pass, is a modelling artefact: the C loop has no bound; the witness needs 65 plugs under two nested foreachplug).  What holds:
-   C07_no_hang_bounded / C07_pass_no_hang - the loop never runs out of fuel f when the POTENTIAL of the queue (Psi: remaining statements,
-   a foreach weighted by the plugs it still has to visit) is below f and blocks are nested less than 8 deep; each iteration that stays
-   in the loop pays off at least one unit (the termination measure of the C loop).  R-DEV shows a Hang as a mismatch. *)
-(* OPEN *) (* a static bound (from the configuration alone) on Psi of every reachable queue - needs `Phi a <= cost of a's script` as an invariant
-   from creation on; and making the model's fuel state-dependent (Psi + 2) so that Hang disappears for every configuration of depth < 8. *)
+(* HANG.  The C loop of _process_action has no bound; the model's loop is a structural recursion on a fuel.  Until 2026-10-02 the fuel was
+   the constant 4096 and every theorem here was "Ok or Hang"; `C07_no_hang_refuted` exhibited a legal configuration (65 plugs under two
+   nested foreachplug) on which the constant ran out - an artefact of the model, the C terminates.  Now the fuel is STATE-DEPENDENT:
+   Model/Device.pa_fuel d3 = 2 + psi d3, psi = the potential of the queue handed to the loop (Model/DeviceFuel.v: remaining statements, a
+   foreach weighted by the plugs of the device it has not visited yet), and Hang is excluded outright:
+     C07_never_hangs     one device's share of dev_post_poll ALWAYS returns Ok and re-establishes the invariant DInvH
+                         (= DInvG, 0 <= retry_count, every exec context walks plug lists no longer than the device's own and blocks at most
+                         7 deep, every script of the device nests at most 7 deep);
+     C07_total_no_hang   from the configured state, after start-up + dev_initial_connect, EVERY operation sequence returns Ok
+                         (never Abort / MemErr / Exit / Hang); C07_total_from_no_hang: the same from any state satisfying HInv and HInvH.
+   The only hypothesis added is STATIC: nest_ok = every script nests its blocks at most 7 deep (the do..while round of the model keeps its
+   constant fuel 8; the C round has no bound either).  Proofs/SpecBridge.shipped_nest_ok re-checks it for every shipped specification on every
+   run (the deepest shipped script nests 1 level).  The old theorems C07_total / C07_total_from / C07_telnet_replies keep their
+   `Hang _ => True` form (the daemon layer quotes them); C07_no_hang_bounded (the measure, for any P, D, fuel) stays; C07_pass_no_hang lost
+   its bound `Psi < 4096` (the fuel now IS the potential); C07_no_hang_refuted is replaced by C07_constant_fuel_insufficient: the SAME
+   configuration and pass, with the old constant the loop would stop at Hang 2, with the model's fuel the pass completes (R-DEV agrees with
+   the C: the device is logged in after the pass). *)
+(* OPEN *) (* the nesting bound itself: a script nested 8 or more deep makes the model's do..while round return Hang 1 although the C has no such
+   limit (no shipped script comes near; the parser accepts any depth).  A depth-dependent round fuel would remove nest_ok. *)
 (* OPEN *) (* C07_others_usable is C05's; the telnet filter (device_tcp.c) and cbuf are C09's; device_tcp.c / device_pipe.c descriptor
    bookkeeping is abstracted (stub transports: the connect methods answer with a plan) and only exercised by the pmsim monitors. *)
 From Coq Require Import List NArith ZArith Bool Lia.
 From PM Require Import Base.Bytes Base.Outcome Base.Dec Gen.GenConsts Gen.GenCbuf Model.ScriptAst Model.Enqueue Model.Script Model.Device
-  Model.DevHarness Proofs.DeviceProofs Proofs.DeviceStmt Proofs.DeviceStmtG Proofs.DeviceInv Proofs.DeviceInvG Proofs.DeviceRun Proofs.DeviceRunG Proofs.DeviceTimer Proofs.DeviceLocal Proofs.DeviceThms Proofs.DeviceMask Proofs.DeviceFuel.
+  Model.DevHarness Proofs.DeviceProofs Proofs.DeviceStmt Proofs.DeviceStmtG Proofs.DeviceInv Proofs.DeviceInvG Proofs.DeviceRun Proofs.DeviceRunG Proofs.DeviceTimer Proofs.DeviceLocal Proofs.DeviceThms Proofs.DeviceMask Model.DeviceFuel Proofs.DeviceFuel Proofs.EnqueueProofs Proofs.DeviceHang.
 Import ListNotations.
 Local Open Scope Z_scope.
 
 (* no history of device behaviour crashes the device layer: from the configured, never connected state, after the harness start-up
    (clock, connect plans, arg lists), dev_initial_connect and ANY sequence of operations - any bytes fed in any chunking, peer close at any
    point, any connect plan sequence (now / pending / fail, finish ok or not), telemetry on or off, any clock - every operation returns;
-   the only non-Ok outcome left is Hang = the model's own fuel (4096 loop iterations per device and pass, 8 nested blocks) ran out *)
+   the only non-Ok outcome left is Hang = the model's own fuel ran out (excluded by C07_total_no_hang below under the static nesting
+   hypothesis; this statement has no such hypothesis) *)
 Theorem C07_total : forall (rmatch : text -> text -> option pmatch) (compress : list text -> text) (sc : bool) (cfgs : list (text * list plug * list (Z * list stmt) * Z * Z)) (pre ops : list hop),
   Forall (fun c => let '(name, plugs, scripts, timeout, ping) := c in cfg_ok compress (mk_device name plugs scripts timeout ping)) cfgs ->
   Forall setup_op pre -> Forall valid_op ops ->
@@ -169,9 +182,9 @@ Qed.
 
 (* TERMINATION MEASURE of _process_action's loop.  P bounds the length of every plug list a foreach walks (DPL), D < 8 the nesting of blocks.
    Psi d = sum over the queued actions of Phi = sum over the exec stack of what each context still owes (hc).  For ANY fuel above Psi the
-   loop ends (Ok, never Hang); in particular with the model's 4096 (C07_pass_no_hang). *)
-Theorem C07_no_hang_bounded : forall (rmatch : text -> text -> option pmatch) (compress : list text -> text) (sc : bool) (P : nat), (1 <= P)%nat ->
-  forall (D : nat), (D < 8)%nat -> forall fuel now d store tmo plans acc,
+   loop ends (never Hang). *)
+Theorem C07_no_hang_bounded : forall (rmatch : text -> text -> option pmatch) (compress : list text -> text) (sc : bool) (P : nat)
+  (D : nat), (D < 8)%nat -> forall fuel now d store tmo plans acc,
   DInvG compress d -> DPL P D d -> tmo_pos tmo -> 0 <= dv_retry_count d -> (Psi P d < fuel)%nat ->
   match process_action rmatch compress sc fuel now d store tmo plans acc with Hang _ => False | _ => True end.
 Proof.
@@ -179,34 +192,98 @@ Proof.
 Qed.
 Print Assumptions C07_no_hang_bounded.
 
-Theorem C07_pass_no_hang : forall (rmatch : text -> text -> option pmatch) (compress : list text -> text) (sc : bool) (P : nat), (1 <= P)%nat ->
-  forall (D : nat), (D < 8)%nat -> forall now d store tmo pin,
+(* the model's fuel is 2 + that potential (P := the device's plug count): no bound on the configuration is left *)
+Theorem C07_pass_no_hang : forall (rmatch : text -> text -> option pmatch) (compress : list text -> text) (sc : bool)
+  (D : nat), (D < 8)%nat -> forall now d store tmo pin,
   DInvG compress d -> tmo_pos tmo -> 0 <= dv_retry_count d ->
-  (forall d3 t3 pl e12, pp_front now d tmo pin = Ok (d3, t3, pl, e12) -> DPL P D d3 /\ (Psi P d3 < 4096)%nat) ->
+  (forall d3 t3 pl e12, pp_front now d tmo pin = Ok (d3, t3, pl, e12) -> DPL (length (sd_plugs (dv d3))) D d3) ->
   match post_poll_one rmatch compress sc now d store tmo pin with Hang _ => False | _ => True end.
 Proof.
   exact post_poll_one_no_hang.
 Qed.
 Print Assumptions C07_pass_no_hang.
 
-(* the fuel of the model CAN run out on a legal configuration (so `Hang` in the theorems above is not vacuous, and is an artefact of the
-   model, not a behaviour of the C): 65 plugs, login script foreachplug { foreachplug { setplugstate } }: 65 * 66 + 1 = 4291 statement rounds
-   in the pass that follows the connect.  With 62 plugs (3907 rounds) the same pass completes and the device is logged in. *)
+(* HANG IS IMPOSSIBLE (pass level).  DInvH d = DInvG d, 0 <= retry_count, every exec context of every queued action walks plug lists no longer
+   than the device's plug list and blocks at most DMAX = 7 deep, every script of the device nests at most 7 deep.  One device's share of
+   dev_post_poll - for every regex / compress oracle, every descriptor answer, every preprocess result, every store, every clock - returns
+   Ok (no Hang, no Abort, no MemErr, no Exit), re-establishes DInvH and guarantees everything C07_telnet_replies says *)
+Theorem C07_never_hangs : forall (rmatch : text -> text -> option pmatch) (compress : list text -> text) (sc : bool) now d store tmo pin,
+  DInvH compress d -> tmo_pos tmo ->
+  exists d' store' tmo' evs, post_poll_one rmatch compress sc now d store tmo pin = Ok (d', store', tmo', evs) /\
+    DInvH compress d' /\ step_postG compress now d store tmo d' store' tmo' evs /\ timer_ok now d' tmo'.
+Proof.
+  exact p_C07_never_hangs.
+Qed.
+Print Assumptions C07_never_hangs.
+
+(* the invariant holds of a configured, never connected device whose scripts nest at most 7 deep ... *)
+Theorem C07_invH_initial : forall (compress : list text -> text) name plugs scripts timeout ping,
+  cfg_ok compress (mk_device name plugs scripts timeout ping) -> nest_ok scripts ->
+  DInvH compress (mk_device name plugs scripts timeout ping) /\ dv_cstate (mk_device name plugs scripts timeout ping) = DEV_NOT_CONNECTED.
+Proof.
+  exact mk_device_invH.
+Qed.
+Print Assumptions C07_invH_initial.
+
+(* ... and is kept by dev_enqueue_actions: the plug list handed to a queued action is a SUB-LIST of the device's plug list (so no longer) *)
+Theorem C07_enqueued_plugs_sublist : forall d com tgts a ps,
+  In a (enqueue_dev d com tgts) -> qa_plugs a = Some ps -> sublist ps (ed_plugs d) /\ (length ps <= length (ed_plugs d))%nat.
+Proof.
+  exact (fun d com tgts a ps H E => conj (enq_plugs_sublist d com tgts a ps H E) (sublist_length _ _ (enq_plugs_sublist d com tgts a ps H E))).
+Qed.
+Print Assumptions C07_enqueued_plugs_sublist.
+
+(* HANG IS IMPOSSIBLE (all op lists): C07_total without the Hang case.  From the configured state (cfg_ok as before + nest_ok), after the harness
+   start-up and dev_initial_connect, EVERY operation sequence returns: never Abort / MemErr / Exit / Hang; both invariants hold afterwards *)
+Theorem C07_total_no_hang : forall (rmatch : text -> text -> option pmatch) (compress : list text -> text) (sc : bool) (cfgs : list (text * list plug * list (Z * list stmt) * Z * Z)) (pre ops : list hop),
+  Forall (fun c => let '(name, plugs, scripts, timeout, ping) := c in cfg_ok compress (mk_device name plugs scripts timeout ping) /\ nest_ok scripts) cfgs ->
+  Forall setup_op pre -> Forall valid_op ops ->
+  exists h' outs, run rmatch compress sc
+              (mkH 0 (map (fun c => let '(name, plugs, scripts, timeout, ping) := c in (mk_device name plugs scripts timeout ping, peer0)) cfgs) [])
+              (pre ++ HInit :: ops) = Ok (h', outs) /\ length outs = length (pre ++ HInit :: ops) /\ HInv compress h' /\ HInvH compress h'.
+Proof.
+  exact p_C07_total_no_hang.
+Qed.
+Print Assumptions C07_total_no_hang.
+
+Theorem C07_total_from_no_hang : forall (rmatch : text -> text -> option pmatch) (compress : list text -> text) (sc : bool) (h : hstate) (ops : list hop),
+  HInv compress h -> HInvH compress h -> Forall valid_op ops ->
+  exists h' outs, run rmatch compress sc h ops = Ok (h', outs) /\ HInv compress h' /\ HInvH compress h' /\ length outs = length ops.
+Proof.
+  exact p_C07_total_from_no_hang.
+Qed.
+Print Assumptions C07_total_from_no_hang.
+
+(* non-vacuity of the hypotheses of C07_total_no_hang / C07_invH_initial: the example devices satisfy nest_ok *)
+Example C07_nest_ok_example : nest_ok (dv_scripts ex_dev) /\ nest_ok (dv_scripts ex_dev3) /\ depths (snd (nth 1 (dv_scripts ex_dev3) (0, []))) = 1%nat.
+Proof. split; [apply nest_b_ok; reflexivity|split; [apply nest_b_ok; reflexivity|reflexivity]]. Qed.
+Example C07_never_hangs_example : DInvH ex_compress ex_dev3.
+Proof. refine (proj1 (mk_device_invH ex_compress _ _ _ _ _ (proj1 C07_cfg_ok_ranged_example) _)). apply nest_b_ok. reflexivity. Qed.
+
+(* WHY the fuel had to become state-dependent: 65 plugs, login script foreachplug { foreachplug { setplugstate } } (a legal configuration:
+   cfg_ok, nest depth 2).  In the pass that follows the connect the queue handed to _process_action owes psi = 65 * 66 + 1 = 4291 statement
+   rounds; with the OLD constant fuel 64 * 64 = 4096 the model's loop stops at Hang 2 (this was C07_no_hang_refuted: an artefact, the C
+   terminates), with the model's fuel pa_fuel = 2 + psi the pass completes and the device is logged in, as in the C. *)
 Definition ex_plugs (n : nat) : list plug := map (fun i => mkPlug [N.of_nat i] (Some [N.of_nat i])) (seq 1 n).
 Definition ex_nested (n : nat) : device :=
   mk_device (bslit "d0") (ex_plugs n) [(PM_LOG_IN, [ForeachPlug [ForeachPlug [SetPlugState None 1 2 []]]])] 5000000 0.
-Theorem C07_no_hang_refuted :
-  cfg_ok ex_compress (ex_nested 65) /\
-  run ex_rmatch ex_compress false (mkH 0 [(ex_nested 65, peer0)] []) [HPlan 0 [ConnNow]; HNow 1000000; HPass] = Hang 2 /\
-  exists h outs, run ex_rmatch ex_compress false (mkH 0 [(ex_nested 62, peer0)] []) [HPlan 0 [ConnNow]; HNow 1000000; HPass] = Ok (h, outs) /\
+Definition ex_nested_pin : passin := passin_of (ex_nested 65) (mkPeer [] false [ConnNow] true []).
+Theorem C07_constant_fuel_insufficient :
+  cfg_ok ex_compress (ex_nested 65) /\ nest_ok (dv_scripts (ex_nested 65)) /\
+  match pp_front 1000000 (ex_nested 65) None ex_nested_pin with
+  | Ok (d3, t3, pl, e12) =>
+      psi d3 = 4291%nat /\ process_action ex_rmatch ex_compress false (Nat.mul 64 64) 1000000 d3 [] t3 pl e12 = Hang 2
+  | _ => False
+  end /\
+  exists h outs, run ex_rmatch ex_compress false (mkH 0 [(ex_nested 65, peer0)] []) [HPlan 0 [ConnNow]; HNow 1000000; HPass] = Ok (h, outs) /\
     map (fun dp => (dv_logged_in (fst dp), dv_acts (fst dp))) (h_devs h) = [(true, [])].
 Proof.
-  split; [|split; [vm_compute; reflexivity|vm_compute; eexists _, _; split; reflexivity]].
+  split; [|split; [apply nest_b_ok; reflexivity|split; [vm_compute; split; reflexivity|vm_compute; eexists _, _; split; reflexivity]]].
   split; [eexists; reflexivity|]. intros i s H. cbn [dv_scripts ex_nested mk_device assoc_script] in H.
   destruct (Z.eqb i PM_LOG_IN); [injection H as <-|discriminate H].
   split; [discriminate|]. repeat (constructor; try discriminate; try exact Logic.I).
 Qed.
-Print Assumptions C07_no_hang_refuted.
+Print Assumptions C07_constant_fuel_insufficient.
 
 (* non-vacuity of C07_telnet_replies: a connected device reads "ok" while the telnet filter queues a 3-byte option reply; the login's expect
    matches and the next statement - a send - starts on a dev->to that is NOT empty (inv_to is false here): the pass returns Ok and the
@@ -222,8 +299,8 @@ Example C07_telnet_replies_example :
     sd_to (dv d') = [255; 252; 1; 255; 251; 3]%N ++ bslit "login\n".
 Proof. vm_compute. eexists _, _, _, _. repeat split. Qed.
 
-(* non-vacuity of C07_no_hang_bounded: the potential of the nested-foreach login is 62 * 63 + 1 = 3907 < 4096 with 62 plugs and
-   65 * 66 + 1 = 4291 >= 4096 with 65 (exactly the two cases of C07_no_hang_refuted) *)
+(* non-vacuity of C07_no_hang_bounded: the potential of the nested-foreach login is 62 * 63 + 1 = 3907 with 62 plugs and
+   65 * 66 + 1 = 4291 with 65 (the case of C07_constant_fuel_insufficient) *)
 Example C07_potential_example :
   costs 62 [ForeachPlug [ForeachPlug [SetPlugState None 1 2 []]]] = 3907%nat /\ costs 65 [ForeachPlug [ForeachPlug [SetPlugState None 1 2 []]]] = 4291%nat /\
   Phi 62 (create_action [ForeachPlug [ForeachPlug [SetPlugState None 1 2 []]]] PM_LOG_IN None 0 false false false None) = 3907%nat /\
